@@ -16,7 +16,7 @@ import (
 	"github.com/pion/webrtc/v4/internal/verif/vsched"
 )
 
-var c04Alphabet = []string{"AT", "ATv", "RT", "TK", "DC", "XO", "PA", "PO", "XA", "CL"}
+var c04Alphabet = []string{"AT", "ATv", "RT", "TK", "DC", "XO", "PA", "PO", "XA", "CL", "RJ"}
 
 type c04Fire struct {
 	AfterStep int    `json:"after_step"` // index of the last completed call when the handler ran (-1: during setup)
@@ -144,6 +144,18 @@ func c04Run(t *testing.T, hist []string) (*c04Obs, *vsched.Result) {
 						err = p.SetRemoteDescription(a)
 					}
 				}
+			case "RJ":
+				// a call that is REJECTED (an answer out of the blue in stable): it must not disturb anything
+				if before != SignalingStateStable || closed {
+					valid = false
+
+					break
+				}
+				err = x.SetRemoteDescription(SessionDescription{Type: SDPTypeAnswer, SDP: vpPoolAnswer})
+				if err == nil {
+					vkit.Fatalf(t, "RJ: an answer in stable was accepted")
+				}
+				err = nil
 			case "CL":
 				if closed {
 					valid = false
@@ -279,8 +291,9 @@ func TestVerifC04(t *testing.T) {
 	c := vkit.New("C04", "model_checking")
 	defer c.Finish(t)
 	vsched.ICEMode.Store(vsched.ICEFailFast)
+	vpPool(t)
 	depth := c.Pick(4, 5)
-	c.Rule(fmt.Sprintf("the full tree of call histories to depth %d over %v (AddTrack audio/video, RemoveTrack, AddTransceiverFromKind, CreateDataChannel, the four halves of local- and peer-initiated offer/answer exchanges with a live peer, Close; calls not applicable in the current state prune the branch); each history on fresh real PeerConnections under the controlled scheduler's default schedule with quiescence after every call; states = (signaling state, pending-fire, counts) reached; distinct = (history shape, fire pattern)", depth, c04Alphabet))
+	c.Rule(fmt.Sprintf("the full tree of call histories to depth %d over %v (AddTrack audio/video, RemoveTrack, AddTransceiverFromKind, CreateDataChannel, the four halves of local- and peer-initiated offer/answer exchanges with a live peer, a rejected SetRemoteDescription, Close; calls not applicable in the current state prune the branch); each history on fresh real PeerConnections under the controlled scheduler's default schedule with quiescence after every call; states = (signaling state, pending-fire, counts) reached; distinct = (history shape, fire pattern)", depth, c04Alphabet))
 	c.Assume("ICE connectivity fails at once (seam), so queued transport work finishes; the peer is a real PeerConnection driven in lock-step")
 	if raw, ok := c.ReplayCase(); ok {
 		var rc struct {
